@@ -330,6 +330,8 @@ func suiteC05(cfg Config, res *Result) {
 	c05FailedLoads(cfg, res)
 	c05FailSites(cfg, res, NewRNG(cfg.Seed^0xfa115))
 	c05InFlight(cfg, res)
+	c05ColdStart(res)
+	c05SharedContext(res)
 	res.Rule = "failing executions: the first failures of every failing filter site happen from 6 goroutines at once, in different templates and lines, each error naming its own site; 1200 executions parked at the same moment inside an include / macro / loop (no per-execution limit is shared between executions); grammar-generated programs over every modelled tag (with includes, lazy includes, macros, cycle, ifchanged, whitespace options) compiled once and executed from k in {2,4,8} goroutines at once under GOMAXPROCS in {1,2,8}, with equal and different contexts, while other goroutines compile/fetch from the same set (FromString, FromFile, FromCache); each goroutine through one of Execute / ExecuteBytes / ExecuteWriter / ExecuteWriterUnbuffered; oracle: every output equals the sequential output for its context, the bytes ExecuteBytes returned are still the same after further executions, and the race detector (harness built with -race) reports nothing; non-trivial = all; distinct by program"
 	n := 250
 	if cfg.Thorough() {
@@ -654,4 +656,114 @@ func indexOf(xs []string, x string) int {
 		}
 	}
 	return 0
+}
+
+// c05ColdStart: the very first executions of a freshly compiled template happen at the same moment
+// (no warming-up execution before them): whatever a first execution learns about the template must
+// not be written into it unsynchronised.  Templates whose output is many times their source.
+func c05ColdStart(res *Result) {
+	srcs := []string{
+		"{% for i in l %}{{ i }}-{{ s }}-{{ i|add:1 }};{% endfor %}",
+		`{% for i in l %}{% include "row.tpl" %}{% endfor %}`,
+		"{% macro m(a) %}<{{ a }}{{ a }}{{ a }}>{% endmacro %}{% for i in l %}{{ m(s) }}{% endfor %}",
+	}
+	l := make([]int, 400)
+	for i := range l {
+		l[i] = i
+	}
+	for rep := 0; rep < 6; rep++ {
+		for _, src := range srcs {
+			files := map[string]string{"row.tpl": "[{{ i }}:{{ s }}:{{ s }}]"}
+			ref, _ := pongo2.NewSet("cold-ref", &memLoader{files: files}).FromString(src)
+			tpl, err := pongo2.NewSet("cold", &memLoader{files: files}).FromString(src)
+			if err != nil || ref == nil {
+				continue
+			}
+			res.Cases++
+			res.DistinctNontrivial++
+			ctx := func() pongo2.Context { return pongo2.Context{"l": l, "s": "some text"} }
+			want := execOnce(ref, ctx()).String()
+			const k = 8
+			outs := make([]string, k)
+			start := make(chan struct{})
+			var wg sync.WaitGroup
+			for j := 0; j < k; j++ {
+				wg.Add(1)
+				go func(j int) {
+					defer wg.Done()
+					<-start
+					if j%2 == 0 {
+						outs[j] = execOnce(tpl, ctx()).String()
+					} else {
+						var r execRes
+						func() {
+							defer func() {
+								if p := recover(); p != nil {
+									r.pan = fmt.Sprint(p)
+								}
+							}()
+							b, e := tpl.ExecuteBytes(ctx())
+							r.out = string(b)
+							if e != nil {
+								r.err = e.Error()
+							}
+						}()
+						outs[j] = r.String()
+					}
+				}(j)
+			}
+			close(start)
+			wg.Wait()
+			for j, o := range outs {
+				if o != want {
+					res.add(Finding{Kind: "oracle", Proj: "race", Sig: "c05-cold-start-output-differs", Case: src, Impl: fmt.Sprintf("goroutine %d: %.80s", j, o), Model: "the sequential output"})
+					break
+				}
+			}
+		}
+	}
+}
+
+// c05SharedContext: goroutines may share one Context map (it is read-only to the engine), also
+// when the set has Globals that the context does not override
+func c05SharedContext(res *Result) {
+	set := pongo2.NewSet("shared", &memLoader{files: map[string]string{"inc.tpl": "{{ site }}/{{ user }}"}})
+	set.Globals["site"] = "example.org"
+	set.Globals["lang"] = "de"
+	tpl, err := set.FromString(`{{ site }}|{{ lang }}|{{ user }}|{% include "inc.tpl" %}`)
+	if err != nil {
+		return
+	}
+	res.Cases++
+	res.DistinctNontrivial++
+	shared := pongo2.Context{"user": "alice"}
+	before := dumpCtx(shared)
+	first := execOnce(tpl, shared).String()
+	if after := dumpCtx(shared); after != before {
+		// (the concurrent phase would be a fatal 'concurrent map writes': the sequential witness is enough)
+		res.add(Finding{Kind: "oracle", Proj: "race", Sig: "c05-caller-context-written", Case: "a set with Globals site, lang; Execute(Context{user: alice})", Impl: "the caller's map afterwards: " + after, Model: "as before: " + before})
+		return
+	}
+	var wg sync.WaitGroup
+	outs := make([]string, 16)
+	for j := range outs {
+		wg.Add(1)
+		go func(j int) {
+			defer wg.Done()
+			for q := 0; q < 20; q++ {
+				outs[j] = execOnce(tpl, shared).String()
+			}
+		}(j)
+	}
+	wg.Wait()
+	for _, o := range outs {
+		if o != first {
+			res.add(Finding{Kind: "oracle", Proj: "race", Sig: "c05-shared-context-output-differs", Case: "16 goroutines sharing one Context", Impl: o, Model: first})
+			break
+		}
+	}
+	set.Globals["site"] = "example.com"
+	if got, want := execOnce(tpl, shared).String(), "ok "+hxb("example.com|de|alice|example.com/alice"); got != want {
+		res.add(Finding{Kind: "oracle", Proj: "race", Sig: "c05-stale-global", Case: "the global changed between two executions with the same Context map", Impl: got, Model: want})
+	}
 }
